@@ -1181,7 +1181,7 @@ def _remap_rules(c, R, rid):
                 if len(tups) == 1:
                     got = []
                     for e in tups[0]["es"]:
-                        e0 = H.peel(e, tries=True)
+                        e0 = H.peel(_resolve_local(e, cl["body"], stop=set(env)), tries=True)
                         if e0.get("k") == "mcall" and e0["name"] == "map_method_ref_obj" and len(e0["args"]) == 1 and H.local_of(e0["recv"]) and H.local_of(e0["recv"])[0] == pids[1]:
                             got.append(_role(e0["args"][0], env))
                         else:
